@@ -165,7 +165,6 @@ theorem sgr_rgb (dflt a : Attr) (r g b : Nat) :
 theorem sgr_reset (dflt a : Attr) : specSgr dflt [0] a = dflt ∧ specSgr dflt [] a = dflt := by
   simp [specSgr, specLoop]
 
-theorem dispatch_SGR (ps : List Nat) (p : Bool) : csiDispatch 109 ps p = [.sgr ps] := by rfl
 
 /-- cells drawn afterwards carry exactly the cursor's rendition (narrow character, no wrap, no IRM) -/
 theorem draw_uses_rendition (env : Env) (s : Screen) (c : Nat) (hw : env.W c = 1)
